@@ -118,6 +118,7 @@ impl<R: io::Read> StreamEncryptor<R> {
             self.is_source_done = true;
             // time to write the final chunk
             self.create_final_auth_tag()?;
+            crate::verif_event!("aead.enc.final", self.bytes_read, self.chunk_index, 0);
 
             return Ok(());
         }
@@ -133,6 +134,7 @@ impl<R: io::Read> StreamEncryptor<R> {
             )
             .map_err(|e| io::Error::new(io::ErrorKind::InvalidData, e))?;
 
+        crate::verif_event!("aead.enc.chunk", self.chunk_index, read, self.bytes_read);
         // Update nonce to include the next chunk index
         self.chunk_index += 1;
         let l = self.nonce.len() - 8;
